@@ -31,7 +31,8 @@ PROPS = {
     "C08": {"quick": [J("^vhC08_(sync_L2|handoff_n2)$", preempt=1, samples=3)], "thorough": [J("^vhC08_(sync_L3|handoff_n3)$", preempt=2, samples=4)], "bounds": {}, "assumptions": []},
     "C14": {"quick": [J("^vhC14_early_L2$", samples=4)], "thorough": [J("^vhC14_early_L3$", preempt=1, samples=6)], "bounds": {}, "assumptions": []},
     "C17": {"quick": [J("^vhC17_.*_L2$", preempt=1, samples=3)], "thorough": [J("^vhC17_.*_L3$", preempt=1, samples=4)], "bounds": {}, "assumptions": []},
-    "C02": {"quick": [J("^vhC02_core_(2x2|3x1)$", preempt=0, samples=2), J("^vhC02_core_(2x2|3x1)$", preempt=1, races=False, samples=3)], "thorough": [J("^vhC02_core_(2x2|3x1)$", preempt=2, samples=6)],
+    "C02": {"quick": [J("^vhC02_core_(2x2|3x1)$", preempt=0, samples=2), J("^vhC02_core_(2x2|3x1)$", preempt=1, races=False, samples=3),
+                      J("^vhC10_conc_|^vhC05_conc_v1$", preempt=0, samples=1, only_msgs="overlapped")], "thorough": [J("^vhC02_core_(2x2|3x1)$", preempt=2, samples=6), J("^vhC10_conc_|^vhC05_conc_v2$", preempt=1, samples=1, only_msgs="overlapped", maxpaths=3000000)],
             "bounds": {"threads": 3, "preemptions_quick": 1, "preemptions_thorough": 2}, "assumptions": []},
     "C03": {"quick": [J("^vhC03_(sub_K3|cut_L2)$", samples=4)], "thorough": [J("^vhC03_(sub_K4|cut_L3)$", samples=8)], "bounds": {}, "assumptions": []},
     "C07": {"quick": [J("^vhC07_.*_L2$", samples=4)], "thorough": [J("^vhC07_.*_L3$", samples=8)], "bounds": {}, "assumptions": []},
@@ -40,14 +41,16 @@ PROPS = {
     "C01": {"quick": [J("^vhC01_.*_L3$", samples=6), J("^vhC02_core_3x1$", preempt=0, samples=2)], "thorough": [J("^vhC01_.*_L4$", samples=12), J("^vhC02_core_(3x1|2x2)$", preempt=1, samples=2)],
             "bounds": {"script_length_quick": 3, "script_length_thorough": 4}, "assumptions": []},
     "C11": {"quick": [J("^vhC11_.*_K4$", samples=4)], "thorough": [J("^vhC11_.*_K5$", samples=8)], "bounds": {}, "assumptions": []},
-    "C13": {"quick": [J("^vhC02_core_2x2$|^vhC06_wait_L1$|^vhC08_handoff_n2$|^vhC17_(tochannel|fromchannel)_L2$", preempt=1, races=True, samples=2)],
-            "thorough": [J("^vhC02_core_(2x2|3x1)$|^vhC06_wait_L2$|^vhC08_handoff_n3$|^vhC17_(tochannel|fromchannel)_L2$", preempt=2, races=True, samples=2)], "bounds": {}, "assumptions": []},
+    "C13": {"quick": [J("^vhC02_core_2x2$|^vhC06_wait_L1$|^vhC08_handoff_n2$|^vhC17_(tochannel|fromchannel)_L2$", preempt=1, races=True, only_kinds=["race", "crash"], samples=2),
+                      J("^vhC10_conc_|^vhC05_conc_v1$", preempt=0, races=True, only_kinds=["race", "crash"], samples=1)],
+            "thorough": [J("^vhC02_core_(2x2|3x1)$|^vhC06_wait_L2$|^vhC08_handoff_n3$|^vhC17_(tochannel|fromchannel)_L2$", preempt=2, races=True, only_kinds=["race", "crash"], samples=2),
+                         J("^vhC10_conc_|^vhC05_conc_v2$|^vhC11_conc", preempt=1, races=True, only_kinds=["race", "crash"], samples=1, maxpaths=3000000)], "bounds": {}, "assumptions": []},
     "C15": {"quick": [J("^vhC15_.*_A2$", samples=4)], "thorough": [J("^vhC15_.*_A(2|3)$", samples=8)], "bounds": {}, "assumptions": []},
     "C16": {"quick": [J("^vhC16_.*2$", samples=2, timeshim=True)], "thorough": [J("^vhC16_(delay|interval|timeout|throttle).*3$|^vhC16_sample_n2$", samples=2, timeshim=True)], "bounds": {}, "assumptions": []},
     "C10": {"quick": [J("^vhC10_seq_.*_K4$", samples=3), J("^vhC10_conc_", preempt=0, samples=1), J("^vhC10_conc_(behavior|unicast|async)", preempt=1, samples=1)], "thorough": [J("^vhC10_seq_.*_K5$", samples=6), J("^vhC10_conc_", preempt=0, samples=1), J("^vhC10_conc_", preempt=2, samples=1, maxpaths=3000000)],
             "bounds": {"ops_quick": 4, "ops_thorough": 5, "subscribers": 3}, "assumptions": []},
-    "C04": {"quick": [J("^vhC04_(ref_L3|variants_L2|blocking_L2)$", samples=8)], "thorough": [J("^vhC04_(ref_L4|variants_L3|blocking_L3)$", samples=16)],
-            "bounds": {"script_length_quick": 3, "script_length_thorough": 4}, "assumptions": []},
+    "C04": {"quick": [J("^vhC04_(ref_L5|variants_L2|blocking_L2)$", samples=8)], "thorough": [J("^vhC04_(ref_L6|variants_L3|blocking_L3)$", samples=16)],
+            "bounds": {"script_length_quick": 5, "script_length_thorough": 6}, "assumptions": []},
 }
 
 # Per-property claim texts for MANIFEST.json (defaults apply where absent).
